@@ -253,6 +253,10 @@ func (o *Operations) Update(
 			}
 		} else {
 			hdr.PAXRecords[records.STFSRecordReplacesContent] = records.STFSRecordReplacesContentFalse
+			if _, ok := hdr.PAXRecords[records.STFSRecordUncompressedSize]; !ok && file.Info.Mode().IsRegular() {
+				// Keep the size of entries which don't carry it yet (i.e. members of archives written by another tar writer)
+				hdr.PAXRecords[records.STFSRecordUncompressedSize] = strconv.Itoa(int(hdr.Size))
+			}
 			hdr.Size = 0 // Don't try to seek after the record
 
 			if o.onHeader != nil {
